@@ -832,6 +832,12 @@ func (e *Env) call(n *ast.CallExpr) *Val {
 		return &Val{T: fmt.Sprintf("(ite (%s %s %s) %s %s)", op, a.T, b.T, a.T, b.T), Typ: mathType(a, b)}
 	case "held": // held(mu) lock token state: 0 none, n>0 read count, -1 write
 		return intVal("(select " + fv.heapAt(e.st, "LOCK", "(Array Int Int)") + " " + e.addrOf(n.Args[0]) + ")")
+	case "isconst": // isconst(argN): the argument at this call site is a literal constant in the source
+		v := e.tr(n.Args[0])
+		if _, ok := constOf(v); ok {
+			return boolVal("true")
+		}
+		return boolVal("false")
 	case "oncedone": // oncedone(x.once): this sync.Once has fired
 		return boolVal("(select " + fv.heapAt(e.st, "ONCE", "(Array Int Bool)") + " " + e.addrOf(n.Args[0]) + ")")
 	case "addr": // addr(x.f): opaque address of a field (identity only)
